@@ -388,6 +388,9 @@ def run_c09(ctx, replay=None):
         ctx.add_samples([{"run": byid[_sid(bid)]["cfg"], "first_recorded_operations": evs[i0:i0 + 16]}], limit=2)
     ctx.extra["bounds"] = {"runs": len(scripts), "seal_calls": calls, "calls_overlapping_another": cont,
                            "controlled_schedules": sched_runs, "schedules_with_a_thread_blocked_on_the_mutex": degenerate}
+    if not replay:
+        import sealsched
+        sealsched.run_part(ctx)
     ctx.assumptions += ["real-parallel executions come from the Go scheduler (plus seeded delays in the datastore wrapper), not from TLC; TLC validates the recordings",
                         "controlled schedules are exhaustive only at the gates (chain-key reads, datastore mutations, call begin); a thread waiting for the mutex is detected from its goroutine wait state",
                         "in-memory map behind the recording datastore; TLC 1.8.0 and the Go toolchain trusted"]
